@@ -31,11 +31,11 @@ import (
 )
 
 type c11FCase struct {
-	System  string `json:"system"`            // limited | unlimited
-	Pre     string `json:"pre"`               // fresh | dst-busy | src-busy
-	Kind    string `json:"kind"`              // connect | reserve
-	Request string `json:"request"`           // what the source does on the hop stream
-	Refuse  string `json:"refuse,omitempty"`  // resource-manager call refused
+	System  string `json:"system"`           // limited | unlimited
+	Pre     string `json:"pre"`              // fresh | dst-busy | src-busy
+	Kind    string `json:"kind"`             // connect | reserve
+	Request string `json:"request"`          // what the source does on the hop stream
+	Refuse  string `json:"refuse,omitempty"` // resource-manager call refused
 	NoDial  bool   `json:"newstream_fails,omitempty"`
 	Dest    string `json:"destination,omitempty"` // what the destination does on the stop stream
 	Fwd     int    `json:"fwd_bytes,omitempty"`   // payload source -> destination
